@@ -739,8 +739,8 @@ func (d Driver) traces(c *core.Ctx) {
 		}
 	}
 	if !found {
-		os.MkdirAll(core.VerifDir+"/replays", 0o755)
-		os.WriteFile(core.VerifDir+"/replays/C15-rejected-trace.ndjson", buf.Bytes(), 0o644)
+		os.MkdirAll(core.OutDir()+"/replays", 0o755)
+		os.WriteFile(core.OutDir()+"/replays/C15-rejected-trace.ndjson", buf.Bytes(), 0o644)
 		c.Broken(fmt.Sprintf("Trace_Context rejected the recorded trace after %d of %d events but no call-level witness reproduces: %s", res.Depth-1, events, lastN(res.ErrText, 1500)))
 	}
 }
